@@ -18,6 +18,7 @@ type result struct {
 	strs   []string     // ExtractLicenses / ValidateLicenses / 1-d getters
 	ranges [][][]string // LicenseRanges
 	kind   int          // 0 none, 1 strs, 2 ranges
+	err    error        // the error value handed to the caller (it may keep it)
 }
 
 func encStrs(s []string) string {
@@ -68,7 +69,8 @@ func errStr(err error) string {
 	if err == nil {
 		return "nil"
 	}
-	return "err:" + strconv.Quote(err.Error())
+	// dynamic type and text: both must be the same whatever happened before
+	return fmt.Sprintf("err(%T):%s", err, strconv.Quote(err.Error()))
 }
 
 // invoke performs one call on the library and returns its canonical outcome. A panic is
@@ -85,13 +87,13 @@ func invoke(fn, expr string, list []string) (outcome string, res result, panicke
 	switch fn {
 	case proto.FnSatisfies:
 		ok, err := spdxexp.Satisfies(expr, list)
-		return fmt.Sprintf("%v|%s", ok, errStr(err)), result{}, false
+		return fmt.Sprintf("%v|%s", ok, errStr(err)), result{err: err}, false
 	case proto.FnValidate:
 		ok, inv := spdxexp.ValidateLicenses(list)
 		return fmt.Sprintf("%v|%s", ok, encStrs(inv)), result{strs: inv, kind: 1}, false
 	case proto.FnExtract:
 		out, err := spdxexp.ExtractLicenses(expr)
-		return fmt.Sprintf("%s|%s", encStrs(out), errStr(err)), result{strs: out, kind: 1}, false
+		return fmt.Sprintf("%s|%s", encStrs(out), errStr(err)), result{strs: out, kind: 1, err: err}, false
 	case proto.FnGetLicenses:
 		t := spdxlicenses.GetLicenses()
 		return hashStrs(t), result{strs: t, kind: 1}, false
@@ -110,13 +112,17 @@ func invoke(fn, expr string, list []string) (outcome string, res result, panicke
 
 // fingerprint of a retained result (content only)
 func (r result) fingerprint() string {
+	e := ""
+	if r.err != nil {
+		e = " " + errStr(r.err)
+	}
 	switch r.kind {
 	case 1:
-		return hashStrs(r.strs)
+		return hashStrs(r.strs) + e
 	case 2:
-		return hashRanges(r.ranges)
+		return hashRanges(r.ranges) + e
 	}
-	return ""
+	return e
 }
 
 // scribble: what a caller may legitimately do with a slice it was handed back:
